@@ -33,6 +33,14 @@ def make_cases(rng, tier, diff_here):
             c = base(e, rules, b=True, n=1, m=k - 1, names=nl, prev="stale")
             c["again"] = True
             cases.append(c)
+    # a repeated name of which only the FIRST execution fails (the other succeeds, later): the call ran a failing rule
+    for e in [x for x in SELECTED if x not in NM]:
+        for nl in (["ra", "ra"], ["rc", "ra", "rb", "ra"]):
+            for kind in ("flaky", "concflaky"):
+                for b in ((True, False) if e in HAS_B else (True,)):
+                    rs = [dict(r) for r in rules]
+                    rs[0]["kind"] = kind
+                    cases.append(base(e, rs, b=b, names=nl))
     n_rand = 200 if tier == "quick" else 5000
     pool = ENTRIES_P + diff_here * 9
     for _ in range(n_rand):
@@ -41,7 +49,7 @@ def make_cases(rng, tier, diff_here):
 
 
 RULE = ("systematic: a 5-rule set with salience ties x 12 name lists (empty, only-unknown, singletons, permutations, duplicates, unknown names mixed in; thorough adds all 3-permutations of 4 names) "
-        "x every one of the 11 selected variants (x both flags where there is one; N-M variants with matching and non-matching n+m); random: 200 (thorough 5000) calls.")
+        "x every one of the 11 selected variants (x both flags where there is one; N-M variants with matching and non-matching n+m); repeated names of which only the first execution fails; random: 200 (thorough 5000) calls.")
 
 
 def main(run):
